@@ -84,11 +84,21 @@ fn c13_rtt_loss_delay() {
     kani::cover!(m > Duration::from_millis(100), "large rtt");
 }
 
+/// Stub for `std::hash::RandomState::new` (DESIGN.md section 2.3 `fixed_random_state`): `Rtt::update`
+/// eagerly builds a `RecoveryMetricsUpdated` whose `custom_fields: HashMap<String, Value>` is
+/// default-constructed; the real `RandomState::new` reads thread-local keys seeded by the
+/// `getrandom` syscall (foreign function, not modelled by CBMC). The map stays empty and is never
+/// hashed into, so the key values are irrelevant.
+fn fixed_random_state() -> std::hash::RandomState {
+    unsafe { core::mem::transmute::<[u64; 2], std::hash::RandomState>([0, 0]) }
+}
+
 /// First RTT sample (no floating point on this path).
 #[kani::proof]
 #[kani::stub(tokio::time::Instant::now, sym_now)]
 #[kani::stub(is_symbolic_run, stub_yes)]
 #[kani::stub(qevent::telemetry::macro_support::build_and_emit_event, no_emit)]
+#[kani::stub(std::hash::RandomState::new, fixed_random_state)]
 fn c13_rtt_first_sample() {
     let now = h_start();
     let mut r = any_rtt();
